@@ -153,6 +153,7 @@ class Expander:
         self.expanded_sites = set()
         self.memo = {}
         self.cut_stack = []
+        self.recursive_fns = set()   # keys of call-graph-recursive fns (set by core.Ctx); None = treat every fn as recursive
 
     def site_tree(self, sitekey):
         if sitekey not in self.parsed:
@@ -218,7 +219,15 @@ class Expander:
                     for conds, leaf in P.leaves(term):
                         tag = leaf[0]
                         if tag == 'tmpl':
-                            if leaf[1] in stack2:
+                            # a template of a function that is already being expanded further up (through whichever of
+                            # its templates) is a recursive occurrence: cutting per *site* lets n templates of mutually
+                            # recursive functions unfold in every order (n! productions)
+                            leaf_fn = self.pv.sites[leaf[1]][0].key if leaf[1] in self.pv.sites else None
+                            stack_fns = [self.pv.sites[s_][0].key for s_ in stack2 if s_ in self.pv.sites]
+                            depth_same = stack_fns.count(leaf_fn) if leaf_fn is not None else 0
+                            reentry = leaf_fn is not None and leaf_fn != fn.key and leaf_fn in stack_fns
+                            recursive = self.recursive_fns is None or leaf_fn in self.recursive_fns
+                            if leaf[1] in stack2 or (recursive and (reentry or depth_same >= 2)):
                                 if self.cut_stack:
                                     self.cut_stack[-1].add(leaf[1])
                                 alts.append((conds, [{'t': 'leaf', 'kind': 'rec', 'term': leaf, 'site': sitekey,
